@@ -8,6 +8,7 @@ import Pfl.Spec.Indexed
 import Pfl.Spec.FST
 import Pfl.Proofs.FSTLemmas
 import Pfl.Props.C17_Indexed
+import Pfl.Proofs.IndexedInterLemmas
 namespace Pfl
 namespace IG
 variable {σ : Type} [DecidableEq σ]
@@ -30,7 +31,13 @@ structure InterOK (T : FST σ) (rs : σ → String) (G : IG) : Prop where
 
 theorem inter_nonEmpty (T : FST σ) (rs : σ → String) (G : IG) (h : InterOK T rs G) :
     (inter T rs G).NonEmpty ↔ ∃ w, G.Gen "S" [] w ∧ ∃ o, T.Rel w o := by
-  sorry
+  have hyp : Inter.Hyp T rs G :=
+    { wf := h.wf, tripleInj := h.tripleInj, terTripleInj := h.terTripleInj,
+      tripleNeTer := h.tripleNeTer, tripleNotS := h.tripleNotS, tripleNotT := h.tripleNotT,
+      inNotEps := h.inNotEps }
+  show (Inter.pre T rs G).removeUseless.NonEmpty ↔ _
+  rw [removeUseless_nonEmpty]
+  exact Inter.pre_nonEmpty hyp
 
 /-- words and plain derivability agree -/
 theorem derivable_iff_gen (G : IG) (a : String) (st : List String) :
